@@ -92,9 +92,13 @@ type c10env struct {
 	keys [2]*dsig.PrivateKey
 }
 
-func c10docs() ([3][]byte, error) {
+func c10docs() ([3][]byte, error) { return c10docsFrom("examples/es/out/invoice-es-es.json") }
+
+// c10docsFrom builds the three inserted documents (valid with code, valid
+// without code, invalid) from a shipped example of any billing document type.
+func c10docsFrom(rel string) ([3][]byte, error) {
 	var out [3][]byte
-	b, err := os.ReadFile(filepath.Join(ev.Repo(), "examples/es/out/invoice-es-es.json"))
+	b, err := os.ReadFile(filepath.Join(ev.Repo(), rel))
 	if err != nil {
 		return out, err
 	}
@@ -115,8 +119,47 @@ func c10docs() ([3][]byte, error) {
 	if s := n2.Get("supplier"); s != nil {
 		s.Del("name")
 	}
+	if !strings.Contains(rel, "invoice") {
+		// a supplier without a name is not invalid in every document type; an undefined type is
+		n2.Set("type", jmut.S("zz-undefined-type"))
+	}
 	out[2] = n2.Bytes()
 	return out, nil
+}
+
+// c10editMeta edits the extracted document in place (any billing document type).
+func c10editMeta(doc any, n int) bool {
+	set := func(m *cbc.Meta) {
+		if *m == nil {
+			*m = cbc.Meta{}
+		}
+		(*m)["edit"] = fmt.Sprint(n)
+	}
+	switch d := doc.(type) {
+	case *bill.Invoice:
+		if d == nil {
+			return false
+		}
+		set(&d.Meta)
+	case *bill.Order:
+		if d == nil {
+			return false
+		}
+		set(&d.Meta)
+	case *bill.Delivery:
+		if d == nil {
+			return false
+		}
+		set(&d.Meta)
+	case *bill.Payment:
+		if d == nil {
+			return false
+		}
+		set(&d.Meta)
+	default:
+		return false
+	}
+	return true
 }
 
 func hdrJSON(e *gobl.Envelope) *jmut.Node {
@@ -171,28 +214,20 @@ func c10run(c *Ctx, cx *c10env, seq []c10op, trans map[string]bool) (nontriv boo
 				m.digestOK = true
 			}
 		case opEditDoc:
-			if inv, ok := env.Extract().(*bill.Invoice); ok && inv != nil {
+			if c10editMeta(env.Extract(), m.edits+1) {
 				m.edits++
-				if inv.Meta == nil {
-					inv.Meta = cbc.Meta{}
-				}
-				inv.Meta["edit"] = fmt.Sprint(m.edits)
 				m.digestOK = false
 			}
 			skipOutcome = true
 		case opReinsertEdited:
 			// extract the document, edit it in place, hand the same pointer back
-			inv, ok := env.Extract().(*bill.Invoice)
-			if !ok || inv == nil {
+			doc := env.Extract()
+			if !c10editMeta(doc, m.edits+1) {
 				skipOutcome = true
 				break
 			}
 			m.edits++
-			if inv.Meta == nil {
-				inv.Meta = cbc.Meta{}
-			}
-			inv.Meta["edit"] = fmt.Sprint(m.edits)
-			pan, _ = Safely(func() { err = env.Insert(inv) })
+			pan, _ = Safely(func() { err = env.Insert(doc) })
 			m.digestOK = true
 		case opSignK1, opSignK2:
 			nontriv = true
@@ -464,6 +499,42 @@ func runC10(c *Ctx) {
 			}
 			c.R.Cases(cnt, nt)
 		})
+	}
+	// the other billing document types (order, delivery, payment): every history
+	// up to length 3 and the structured family; the model is the same (a document
+	// without its code is valid but cannot be signed)
+	for _, rel := range []string{"examples/es/out/order.json", "examples/es/out/delivery.json", "examples/es/out/payment.json"} {
+		od, err := c10docsFrom(rel)
+		if err != nil {
+			c.R.Count("other_type_base_missing", 1)
+			continue
+		}
+		ox := &c10env{docs: od, keys: cx.keys}
+		var seqs [][]c10op
+		for a := 0; a < n; a++ {
+			for b := 0; b < n; b++ {
+				for f := 0; f < 3; f++ {
+					seqs = append(seqs, []c10op{c10op(f), c10op(a), c10op(b)})
+				}
+				for _, obs := range []c10op{opValidate, opVerifyK1, opSignK2, opRoundtrip} {
+					seqs = append(seqs, []c10op{opInsertValid, c10op(a), opSignK1, c10op(b), obs})
+					seqs = append(seqs, []c10op{opInsertNoCode, c10op(a), opSignK1, c10op(b), obs})
+				}
+			}
+		}
+		total += len(seqs)
+		c.Parallel(chunks, func(ci int) {
+			trans := results[ci]
+			var cnt, nt int64
+			for s := ci; s < len(seqs); s += chunks {
+				cnt++
+				if c10run(c, ox, seqs[s], trans) {
+					nt++
+				}
+			}
+			c.R.Cases(cnt, nt)
+		})
+		c.R.Count("histories_on:"+rel, int64(len(seqs)))
 	}
 	// random longer histories
 	nRand := c.N(3000, 100000)
